@@ -156,6 +156,12 @@ class C11(PropBase):
                         files = [e for e in L if is_file(e)]
                         base = rng.choice(files or L).split('/')
                         q = '/'.join(base[:-2] + ['*']) if len(base) > 3 else '/'.join(base)       # the state level (no path template): constants
+                    elif qi in (19, 33) and v.alias:
+                        # an extension alias as the only search feature (every other value explicit): still a search, on every Finder
+                        files = [e for e in L if is_file(e)]
+                        base = rng.choice(files or L).split('/')
+                        als = [a for a, ms in sorted(v.alias.items()) if base[-1] in ms]
+                        q = '/'.join(base[:-1] + [rng.choice(als)]) if als and files else '/'.join(base)
                     elif qi in (8, 9, 10, 11, 12, 13, 14, 15):
                         base = rng.choice(L).split('/')
                         q = '/'.join(base[:-1] + ['*']) if len(base) > 1 else base[0]             # siblings of an entity
